@@ -44,6 +44,7 @@ class Run(object):
     b.SetTimeout(p.get('timeout', 0.7525))
     b.SetOpenTimeout(0)
     self.calls = []      # dict(t, ar, arg, done_t, outcome)
+    self._pending = []
     self.viol = []
     self.client = None
     self.closed_at = None
@@ -105,16 +106,24 @@ class Run(object):
             rec['outcome'] = 'raised:' + type(e).__name__
             rec['done_t'] = self.lp.now()
           self.calls.append(rec)
+          self._pending.append(rec)
       k += 1
-      gevent.sleep(1.0)
+      gevent.sleep(self.p.get('traffic_period', 1.0))
 
   events = 0
 
   def _monitor(self):
     self.events += 1
     now = self.lp.now()
-    for c in self.calls:
-      if c['done_t'] is None and c['ar'] is not None and c['ar'].ready():
+    if not self._pending:
+      return
+    still = []
+    for c in self._pending:
+      if not (c['done_t'] is None and c['ar'] is not None and c['ar'].ready()):
+        if c['done_t'] is None and c['ar'] is not None:
+          still.append(c)
+        continue
+      if True:
         c['done_t'] = now
         ar = c['ar']
         if ar.successful():
@@ -123,6 +132,7 @@ class Run(object):
           e = ar.exception
           inner = getattr(e, 'inner_exception', None)
           c['outcome'] = type(inner if inner is not None else e).__name__
+    self._pending = still
 
   def run(self):
     lp = self.lp
@@ -310,6 +320,12 @@ def histories(tier):
                           [(u1, u1 + gap + 0.35, u1 + gap + 0.35 + out2) for u1 in (4.0, 9.0, 16.0) for gap in (8.0, 16.0, 30.0) for out2 in (3.0, 12.0, 40.0)]:
         out.append({'stack': stack, 'endpoints': n, 'mode': 'refuse', 'down_at': 2.25, 'up_at': None, 'horizon': 160,
                     'downs': {'0': d2}, 'ups': {'0': u1 + 0.0125}, 'ups2': {'0': u2 + 0.0125}, 'second_outage': True})
+    # one very long outage (tens of minutes to hours: dozens of failed reconnect attempts at the capped interval), one call every 7 s
+    for n in (1, 2):
+      for mode in ('refuse', 'stall'):
+        for up in ((1500.0, 3000.0) if tier == 'quick' else (900.0, 1500.0, 2100.0, 3000.0, 5400.0, 9000.0)):
+          out.append({'stack': stack, 'endpoints': n, 'down_at': 2.25, 'mode': mode, 'up_at': up + 0.0125, 'horizon': up + 140,
+                      'traffic_period': 7.0})
     # two members down with overlap, recovering in either order, two concurrent calls per second
     pts = [6.0, 9.0, 14.0, 22.0, 30.0] if tier == 'quick' else [6.0 + 2.5 * i for i in range(14)]
     for (da, db) in ((2.25, 4.25), (4.25, 2.25)):
